@@ -1,10 +1,16 @@
 (* C14 - Messages arrive exactly once, in order and intact, with bounded buffering.
    This file contains only statements, each closed by [exact], examples and the assumption audit.
    Message codec: Model/Bincode.v; channel: Model/Channel.v (one sender, one receiver, every interleaving).
-   The encrypted TCP leg (frame codec) is Model/Frame.v of the frames cluster (C10); the interface
-   it uses is [C14_decode_encode_command] / [C14_decode_encode_response]. *)
-From RJ Require Import Base.Prelude Model.LEInt Model.Bincode Model.Channel
-  Proofs.LEIntProofs Proofs.BincodeProofs Proofs.ChannelProofs.
+   The encrypted TCP leg: the frame codec and the sender / receiver automata are Model/Frame.v of the frames
+   cluster (C10, which owns the adversarial theorems and [C14_stream]); this file adds that every message the
+   protocol can produce FITS the fixed buffers of that leg ([C14_legit_*], Model/WireLink.v), composes it with
+   the stream theorem ([C14_link_delivers_*]) and checks the limits against the running code
+   ([C14_frame_limits_match_code], [C14_chunk_frames_fit_code]; Gen/Facts_wire.v and Gen/Facts_chunks.v are
+   regenerated from the real AsyncEncryptedComms on every run). *)
+From RJ Require Import Base.Prelude Model.LEInt Model.Bincode Model.Channel Model.WireLink
+  Proofs.LEIntProofs Proofs.BincodeProofs Proofs.ChannelProofs Proofs.WireLinkProofs.
+From RJ Require Model.Frame Proofs.FrameProofs.
+From RJ Require Gen.Facts_wire Gen.Facts_chunks.
 Local Open Scope N_scope.
 
 (* ------------------------------------------------------------------ intact: the message codec *)
@@ -71,6 +77,100 @@ Theorem C14_size_panics_before_epoch :
   is_panic (send_size_response (REntry [] (EDFile t1960 0))) = true /\
   is_panic (send_size_response (RRootDetails (Some (EDFile t1960 0)) false [ascii_of_N 47])) = true.
 Proof. exact size_panics_before_epoch. Qed.
+
+(* ------------------------------------------------------------------ the encrypted TCP channel: every message fits *)
+
+(* A message is legitimate when it carries at most one full chunk of file data (4 MiB) and all its strings
+   together (paths, link targets, root, filter patterns, error text) stay within 4 MiB - 1 KiB.  With its
+   AEAD tag and its length header it fits the 8 MiB buffer of either thread of the link. *)
+Theorem C14_legit_command_fits : forall c, legit_command c = true ->
+  len_prefix + size_command c + tag_len <= Frame.buf_size.
+Proof. exact legit_command_fits. Qed.
+Theorem C14_legit_response_fits : forall r, legit_response r = true ->
+  len_prefix + size_response r + tag_len <= Frame.buf_size.
+Proof. exact legit_response_fits. Qed.
+
+(* [link_class_of] (what the judge answers for one message) is what the sender of Model/Frame.v does with a
+   plaintext of that size: framed, serialization error, or the panic of the tag that does not fit *)
+Theorem C14_link_class_is_send_step : forall seal,
+  (forall ctr m, Frame.blen (seal (Frame.nonce_of ctr) m) = Frame.blen m + tag_len) ->
+  forall bump d ctr m, ctr mod 2 = Frame.lsb d -> ctr + 2 < Frame.u64_limit ->
+  match link_class_of true (Frame.blen m) with
+  | LDelivered => Frame.send_step seal bump d ctr m
+                  = Ok (Frame.next_ctr bump ctr, Frame.frame_of (seal (Frame.nonce_of ctr) m))
+  | LSerialize => exists e, Frame.send_step seal bump d ctr m = Err e
+  | LTagPanic => exists s, Frame.send_step seal bump d ctr m = Panic s
+  | LUnencodable => False
+  end.
+Proof. exact send_step_class. Qed.
+
+Theorem C14_legit_command_delivered : forall c, wf_command c = true -> legit_command c = true ->
+  link_class_command c = LDelivered.
+Proof. exact legit_command_delivered. Qed.
+Theorem C14_legit_response_delivered : forall r, wf_response r = true -> legit_response r = true ->
+  link_class_response r = LDelivered.
+Proof. exact legit_response_delivered. Qed.
+
+(* The whole leg without an adversary, for every sequence of legitimate messages (fewer than 2^62, the
+   final message of the direction - if any - last), every AEAD that opens what it sealed and appends 16
+   bytes, every TCP segmentation: the sender never fails, the receiving automaton delivers exactly the
+   plaintexts that were sent, in order, and each one deserializes to the message it came from. *)
+Theorem C14_link_delivers_commands : forall seal open fin d,
+  (forall n m, open n (seal n m) = Some m) ->
+  (forall ctr m, Frame.blen (seal (Frame.nonce_of ctr) m) = Frame.blen m + tag_len) ->
+  forall (cmds : list command) (segs : list (list ascii)),
+  Forall (fun c => wf_command c = true /\ legit_command c = true) cmds ->
+  Frame.lsb d + 2 * lenN cmds < Frame.u64_limit ->
+  Frame.upto_final fin (map enc_command cmds) = map enc_command cmds ->
+  exists ctr' frames,
+    Frame.send_all seal true d (Frame.lsb d) (map enc_command cmds) = Ok (ctr', frames) /\
+    (concat segs = concat frames ->
+     Frame.decode_stream open deserializes_command fin true d segs = map enc_command cmds) /\
+    Forall (fun c => decode_command (enc_command c) = Some (c, [])) cmds.
+Proof. exact link_delivers_commands. Qed.
+
+Theorem C14_link_delivers_responses : forall seal open fin d,
+  (forall n m, open n (seal n m) = Some m) ->
+  (forall ctr m, Frame.blen (seal (Frame.nonce_of ctr) m) = Frame.blen m + tag_len) ->
+  forall (rs : list response) (segs : list (list ascii)),
+  Forall (fun r => wf_response r = true /\ legit_response r = true) rs ->
+  Frame.lsb d + 2 * lenN rs < Frame.u64_limit ->
+  Frame.upto_final fin (map enc_response rs) = map enc_response rs ->
+  exists ctr' frames,
+    Frame.send_all seal true d (Frame.lsb d) (map enc_response rs) = Ok (ctr', frames) /\
+    (concat segs = concat frames ->
+     Frame.decode_stream open deserializes_response fin true d segs = map enc_response rs) /\
+    Forall (fun r => decode_response (enc_response r) = Some (r, [])) rs.
+Proof. exact link_delivers_responses. Qed.
+
+(* Obligations against the running code.  The receiving thread of a real AsyncEncryptedComms accepts length
+   fields up to exactly the model's buffer size; the largest payload a real pair of them delivered implies
+   the same buffer on the sending side; the real sending thread appends 16 bytes after an 8-byte header;
+   the top of the real chunk ladder is the model's [max_chunk]. *)
+Theorem C14_frame_limits_match_code :
+  Facts_wire.impl_wire_recv_max = Frame.buf_size /\ Facts_chunks.impl_frame_buf = Frame.buf_size /\
+  Facts_wire.impl_wire_tag = tag_len /\ Facts_wire.impl_wire_len_prefix = len_prefix /\
+  Facts_chunks.impl_max_chunk = max_chunk.
+Proof. repeat split; reflexivity. Qed.
+
+(* ... and, stated on the code's own numbers only: a CreateOrUpdateFile command with a full chunk of the
+   real ladder and any path of up to 96 KiB (PATH_MAX is 4096 on Linux; 32767 UTF-16 units on Windows), with or
+   without a modification time, and a FileContent response with a full chunk, are accepted by the real
+   receiving thread and are within what a real pair of comms objects delivered. *)
+Theorem C14_chunk_frames_fit_code : forall p d mt more,
+  lenN d <= Facts_chunks.impl_max_chunk -> lenN p <= 98304 ->
+  size_command (CCreateOrUpdateFile p d mt more) + Facts_wire.impl_wire_tag <= Facts_wire.impl_wire_recv_max /\
+  Facts_wire.impl_wire_len_prefix + size_command (CCreateOrUpdateFile p d mt more) + Facts_wire.impl_wire_tag
+    <= Facts_chunks.impl_frame_buf /\
+  size_response (RFileContent d more) + Facts_wire.impl_wire_tag <= Facts_wire.impl_wire_recv_max /\
+  Facts_wire.impl_wire_len_prefix + size_response (RFileContent d more) + Facts_wire.impl_wire_tag
+    <= Facts_chunks.impl_frame_buf.
+Proof.
+  intros p d mt more Hd Hp.
+  unfold Facts_chunks.impl_max_chunk, Facts_chunks.impl_frame_buf, Facts_wire.impl_wire_tag,
+    Facts_wire.impl_wire_recv_max, Facts_wire.impl_wire_len_prefix in *.
+  cbn [size_command size_response]. unfold size_buf. destruct mt; cbn [size_option]; lia.
+Qed.
 
 (* ------------------------------------------------------------------ the channel, every interleaving *)
 
@@ -183,8 +283,31 @@ Proof.
   apply (chan_run_reach 5). apply reach_init.
 Qed.
 
+(* a full 4 MiB chunk under a 4096-byte path, with a modification time, is legitimate (size 4 MiB + 4130),
+   and so is a symlink whose path and target are 4096 bytes each: the premises of the theorems above are met *)
+Example C14_example_legit :
+  let p := repeat (ascii_of_N 97) 4096 in
+  legit_command (CCreateOrUpdateFile p [] (Some (mkTime 12 5)) true) = true /\
+  wf_command (CCreateOrUpdateFile p [] (Some (mkTime 12 5)) true) = true /\
+  (forall d, lenN d = max_chunk ->
+     size_command (CCreateOrUpdateFile p d (Some (mkTime 12 5)) true) = 4198434) /\
+  legit_command (CCreateSymlink p SKFile (STNormalized p)) = true /\
+  legit_response (REntry p (EDSymlink SKUnknown (STNotNormalized p))) = true /\
+  link_class_of true 8388584 = LDelivered /\ link_class_of true 8388585 = LTagPanic /\
+  link_class_of true 8388601 = LSerialize /\
+  (forall k ctr m, Frame.blen (Frame.toy_seal k (Frame.nonce_of ctr) m) = Frame.blen m + tag_len).
+Proof.
+  repeat split; try (vm_compute; reflexivity).
+  - intros d Hd. cbn [size_command size_option]. unfold size_buf. rewrite Hd.
+    replace (lenN (repeat (ascii_of_N 97) 4096)) with 4096 by (vm_compute; reflexivity).
+    unfold max_chunk. lia.
+  - exact toy_seal_expands.
+Qed.
+
 Print Assumptions C14_codec_command.
 Print Assumptions C14_codec_response.
 Print Assumptions C14_fifo.
 Print Assumptions C14_account.
 Print Assumptions C14_progress.
+Print Assumptions C14_link_delivers_commands.
+Print Assumptions C14_chunk_frames_fit_code.
